@@ -190,6 +190,38 @@ fn check(c: &Case, obs: &mut Obs) -> Verdict {
 
     // expected rows
     let tilde = prefixes.iter().any(|p| p == "~");
+    // "If an item in the list is set to `~` then the common prefix of all sources is stripped" (doc of
+    // RewriteOptions::strip_prefixes). Where that sentence is unambiguous - no source root, every listed
+    // source an absolute '/'-path without backslashes - the common prefix is computed here, component by
+    // component, and the stripped names are expected exactly. Elsewhere only the shape is checked.
+    let tilde_exact: Option<Option<String>> = {
+        let root_empty = before_sm.get_source_root().map(|r| r.is_empty()).unwrap_or(true);
+        let all_abs = !old_sources.is_empty() && old_sources.iter().all(|s| s.starts_with('/') && !s.contains('\\'));
+        if tilde && root_empty && all_abs {
+            // components keep their leading separator: "/a/b" -> "", "/a", "/b"
+            let split = |p: &str| -> Vec<String> {
+                let mut out = vec![];
+                let mut last = 0;
+                for (i, _) in p.match_indices('/') {
+                    out.push(p[last..i].to_string());
+                    last = i;
+                }
+                if last < p.len() {
+                    out.push(p[last..].to_string());
+                }
+                out
+            };
+            let comps: Vec<Vec<String>> = old_sources.iter().map(|s| split(s)).collect();
+            let mut n = comps.iter().map(|c| c.len()).min().unwrap_or(0);
+            for c in &comps {
+                n = n.min(c.iter().zip(&comps[0]).take_while(|(a, b)| a == b).count());
+            }
+            let p = comps[0][..n].concat();
+            Some(if p.is_empty() || p == "/" { None } else { Some(p) })
+        } else {
+            None
+        }
+    };
     // first non-absent content per old (joined) source name, in token order
     let mut first_content: BTreeMap<String, Option<String>> = BTreeMap::new();
     for r in &before {
@@ -218,6 +250,14 @@ fn check(c: &Case, obs: &mut Obs) -> Verdict {
                     let name_ok = if c.with_names { as_.3 == bs.3 } else { as_.3.is_none() };
                     let src_ok = match strip_explicit(&bs.0, &prefixes) {
                         Some(want) => as_.0 == want,
+                        None if tilde_exact.is_some() => {
+                            let want = match tilde_exact.as_ref().unwrap() {
+                                // (a prefix is given a trailing '/' unless it has one - as for explicit prefixes)
+                                Some(p) => bs.0.strip_prefix(&if p.ends_with('/') { p.clone() } else { format!("{p}/") }).unwrap_or(&bs.0).to_string(),
+                                None => bs.0.clone(),
+                            };
+                            as_.0 == want
+                        }
                         None if tilde => {
                             as_.0 == bs.0
                                 || (bs.0.ends_with(as_.0.as_str())
@@ -347,6 +387,8 @@ fn check(c: &Case, obs: &mut Obs) -> Verdict {
     obs.class_if(out_of_order, "sources-not-in-first-use-order");
     obs.class_if(stripped_something, "a-prefix-stripped-something");
     obs.class_if(tilde, "tilde");
+    obs.class_if(tilde_exact.is_some(), "tilde:common-prefix-of-all-absolute-sources-expected-exactly");
+    obs.class_if(matches!(tilde_exact, Some(Some(_))), "tilde:non-trivial-common-prefix");
     obs.class_if(!removed_by_tilde.is_empty(), "tilde-stripped-something");
     obs.class_if(mm.root.as_deref().map(|r| !r.is_empty()).unwrap_or(false), "root-present");
     obs.class_if(matches!(c.map, MAny::Hermes(_)), "hermes");
@@ -390,9 +432,33 @@ fn params(t: Tier) -> MMParams {
     }
 }
 
+const ABS_FAMILY: &[&str] = &[
+    "/srv/app/a.js", "/srv/app/lib/b.js", "/srv/app/lib/util/c.js", "/srv/app/d.js", "/srv/app/lib", "/srv/app/lib/b.js", "/srv/app/ü.js",
+    "/srv/app2/e.js", "/srv/app", "/srv/app/lib/", "/srv//app/f.js",
+];
+
 fn regular(t: Tier) -> BoxedStrategy<Case> {
-    (mm_strategy(params(t)), any::<bool>(), any::<bool>(), prefix_choices())
-        .prop_map(|(m, with_names, with_contents, prefixes)| Case { map: MAny::Regular(m), with_names, with_contents, prefixes })
+    (mm_strategy(params(t)), any::<bool>(), any::<bool>(), prefix_choices(), prop_oneof![3 => Just(0u8), 2 => 1u8..=255])
+        .prop_map(|(mut m, with_names, with_contents, mut prefixes, abs)| {
+            if abs != 0 {
+                // every source an absolute path below /srv (the '~' shorthand strips "the common prefix
+                // of all sources"): names from one family, which of them depends on the generated byte
+                let span = match abs % 4 {
+                    0 => 7,  // all below /srv/app
+                    1 => 8,  // one below /srv/app2: the common prefix is /srv
+                    2 => 9,  // a source that *is* a directory of the others
+                    _ => ABS_FAMILY.len(),
+                };
+                for (i, s) in m.sources.iter_mut().enumerate() {
+                    *s = ABS_FAMILY[(i * 3 + abs as usize) % span].to_string();
+                }
+                m.root = None;
+                if !prefixes.iter().any(|p| matches!(p, PrefixChoice::Tilde)) {
+                    prefixes.push(PrefixChoice::Tilde);
+                }
+            }
+            Case { map: MAny::Regular(m), with_names, with_contents, prefixes }
+        })
         .boxed()
 }
 
